@@ -207,6 +207,8 @@ XaSet == {<<>>, <<[a |-> "authrole", v |-> <<"trusted">>]>>, <<[a |-> "color", v
 EaSet == {<<>>, <<[a |-> "authrole", v |-> <<"trusted", "admin">>]>>, <<[a |-> "color", v |-> <<"red">>]>>,
           <<[a |-> "authid", v |-> <<"bob", "u2">>], [a |-> "color", v |-> <<"red", "blue">>]>>}
 
+SubTwins == {<<k[1], m>> : k \in {kk \in DOMAIN subs : ~IsWampURI(kk[1])}, m \in {"", "prefix", "wildcard"}}
+            \ {<<k[1], IF k[2] = "exact" THEN "" ELSE k[2]>> : k \in DOMAIN subs}
 GSubscribe ==
   \E pickc \in R(1..2) :
   \E s \in R(LET callees == {x \in J : \E k \in DOMAIN regs : x \in Rng(regs[k].callees)}
@@ -216,6 +218,8 @@ GSubscribe ==
              \* realms with event history: mostly the configured subscriptions (subscribers come and go)
              ELSE IF Mode = "stall" /\ bad > 2 THEN {<<U_a, "prefix">>, <<U_x, "wildcard">>, <<U_ab, "">>}
              ELSE IF Mode = "hist" /\ DOMAIN hist # {} /\ bad > 2 THEN {<<kk[1], IF kk[2] = "exact" THEN "" ELSE kk[2]>> : kk \in DOMAIN hist}
+             \* the URI of an existing subscription under another policy: independent subscriptions that share a string
+             ELSE IF bad = 3 /\ SubTwins # {} THEN SubTwins
              ELSE IF bad = 1 THEN BadKeys ELSE IF bad = 2 THEN MetaKeys ELSE Keys) :
     LET i == [In0 EXCEPT !.op = "subscribe", !.s = s, !.req = N, !.uri = k[1], !.o = [O0 EXCEPT !.match = k[2]]]
     IN Step(i, SubscribeFx(Cur, s, N, k[1], k[2], NextId(used.sub)))
@@ -243,8 +247,9 @@ GPublish ==
     LET o == [O0 EXCEPT !.ack = ack, !.xme = xme, !.dme = dme, !.ppt = ppt,
                         !.xl = IF kind \in {1, 2} THEN xl ELSE <<>>,
                         !.hx = kind \in {1, 2},
-                        !.el = IF kind \in {2, 3} /\ el # <<>> THEN el ELSE <<>>,
-                        !.he = kind \in {2, 3} /\ el # <<>>,
+                        \* (now and then every eligible session is excluded as well)
+                        !.el = IF kind = 2 /\ un = 2 /\ xl # <<>> THEN xl ELSE IF kind \in {2, 3} /\ el # <<>> THEN el ELSE <<>>,
+                        !.he = (kind = 2 /\ un = 2 /\ xl # <<>>) \/ (kind \in {2, 3} /\ el # <<>>),
                         !.xa = IF kind \in {4, 6} THEN xa ELSE <<>>,
                         !.ea = IF kind \in {5, 6} THEN ea ELSE <<>>]
         \* (Mode "unser": an in-process publisher hands over a payload that cannot be serialised)
